@@ -10,11 +10,28 @@ import (
 )
 
 func isLockInsert(call ssa.CallInstruction) bool {
-	if methodName(call) != "ExecContext" || len(call.Common().Args) < 3 {
+	if methodName(call) != "ExecContext" {
 		return false
 	}
-	s, ok := constString(refArgs(call)[2])
+	// (*sql.Tx).ExecContext(tx, ctx, query, args...) or the same method through a small
+	// interface the transaction is passed as (receiver not among the arguments)
+	qi := 2
+	if call.Common().IsInvoke() {
+		qi = 1
+	}
+	if len(call.Common().Args) <= qi {
+		return false
+	}
+	s, ok := constString(call.Common().Args[qi])
 	return ok && strings.Contains(s, "_litestream_lock") && strings.HasPrefix(strings.ToUpper(strings.TrimSpace(s)), "INSERT")
+}
+
+// lockInsertRecv is the transaction value the insert is executed on.
+func lockInsertRecv(call ssa.CallInstruction) ssa.Value {
+	if call.Common().IsInvoke() {
+		return call.Common().Value
+	}
+	return call.Common().Args[0]
 }
 
 // lockInsertErr / lockInsertTx: the error result and the transaction of a write-lock
@@ -32,7 +49,7 @@ func lockInsertErr(ins ssa.CallInstruction) ssa.Value {
 
 func lockInsertTx(ins ssa.CallInstruction) ssa.Value {
 	if isLockInsert(ins) {
-		return ins.Common().Args[0]
+		return lockInsertRecv(ins)
 	}
 	h := ins.Common().StaticCallee()
 	if h == nil {
@@ -41,7 +58,7 @@ func lockInsertTx(ins ssa.CallInstruction) ssa.Value {
 	for _, k := range calls(h) {
 		if isLockInsert(k) {
 			for j, p := range h.Params {
-				for _, o := range origins(k.Common().Args[0]) {
+				for _, o := range origins(lockInsertRecv(k)) {
 					if o == ssa.Value(p) && j < len(ins.Common().Args) {
 						return ins.Common().Args[j]
 					}
